@@ -1,5 +1,5 @@
 (* Safety.v — totality / range facts (C06) and package parity (C07). *)
-From Strcase Require Import Base Utf8 Utf8Facts Spec SpecFacts SpecIndex SpecAffix SpecChars Impl Refine_Compare Fold FoldFacts FoldTables FoldFacts121.
+From Strcase Require Import Base Utf8 Utf8Facts Spec SpecFacts SpecIndex SpecAffix SpecChars Impl Refine_Compare Fold FoldFacts FoldTables FoldFacts121a.
 From StrcaseGen Require Exports.
 From Coq Require Import ZifyBool ZifyNat.
 
